@@ -270,6 +270,23 @@ func rewriteSched(pkg *packages.Package, f *ast.File) {
 			return false
 		}
 		switch n := c.Node().(type) {
+		case *ast.RangeStmt:
+			// for v := range ch { body } -> for { v, ok := verifsched.RecvOK(ch); if !ok { break }; body }
+			// (a native range over a channel would block the whole cooperative scheduler)
+			if t := pkg.TypesInfo.TypeOf(n.X); t != nil {
+				if _, isChan := t.Underlying().(*types.Chan); isChan && (n.Tok == token.DEFINE || n.Key == nil) {
+					var v ast.Expr = ast.NewIdent("_")
+					if n.Key != nil {
+						v = n.Key
+					}
+					okID := ast.NewIdent("verifRecvOK")
+					recv := &ast.AssignStmt{Lhs: []ast.Expr{v, okID}, Tok: token.DEFINE, Rhs: []ast.Expr{&ast.CallExpr{Fun: sel("RecvOK"), Args: []ast.Expr{n.X}}}}
+					brk := &ast.IfStmt{Cond: &ast.UnaryExpr{Op: token.NOT, X: okID}, Body: &ast.BlockStmt{List: []ast.Stmt{&ast.BranchStmt{Tok: token.BREAK}}}}
+					body := &ast.BlockStmt{List: append([]ast.Stmt{recv, brk}, n.Body.List...)}
+					c.Replace(&ast.ForStmt{Body: body})
+					return true
+				}
+			}
 		case *ast.GoStmt:
 			// go f(args) -> verifsched.Go(func() { f(args) })
 			c.Replace(&ast.ExprStmt{X: &ast.CallExpr{
